@@ -822,6 +822,37 @@ def run(ctx):
 
     # ---- the queue program commits only a complete envelope (qmail-queue side of "exactly it was queued")
     from rules import C01
+    # ---------------------------------------------------------------- 9. netstring lengths are decimal numbers
+    r9 = rep.rule('C07.9-netstring-lengths', 'R-SIBLING', 'every place that accumulates a netstring length (len = 10 * len + digit) is reached only for the bytes "0".."9": any other byte before the colon is malformed framing and ends the session')
+    from qv.lib import consistent_values as _cv
+    nsites = 0
+    for unit_, fname_ in (('qmail-qmtpd.c', 'getlen'), ('qmail-qmtpd.c', 'main'), ('qmail-qmqpd.c', 'getlen')):
+        fn_ = db.fn(unit_, fname_)
+        for x in fn_.all_x():
+            if not (x.k == 'bin' and x.op == '*' and 10 in (x.args[0].const, x.args[1].const)):
+                continue
+            # the byte being added: the other operand of the enclosing sum, a difference "byte - '0'"
+            digit = None
+            for y in fn_.all_x():
+                if y.k == 'bin' and y.op == '+' and any(a is not None and a.strip() is not None and a.strip().id == x.id for a in y.args):
+                    other = [a for a in y.args if a is not None and a.strip() is not None and a.strip().id != x.id]
+                    if other:
+                        d_ = other[0].strip()
+                        if d_.k == 'bin' and d_.op == '-' and d_.args[1].const == ord('0'):
+                            digit = d_.args[0].strip()
+            if digit is None:
+                raise AnalysisBroken('%s:%s: the digit added to 10*len was not found' % (unit_, fname_))
+            key_ = digit.path() or digit.src()
+            cvs = _cv(fn_, x, range(-128, 128), key=lambda v: v.strip().path() or v.strip().src())
+            allowed = cvs.get(key_)
+            nsites += 1
+            okd = allowed is not None and allowed <= set(range(48, 58)) and allowed
+            odd = sorted(allowed - set(range(48, 58)))[:6] if allowed is not None else None
+            r9.check(bool(okd), 'length-digits-only:%s:%s' % (unit_, fname_), x.where,
+                     'the length is accumulated for bytes other than digits (for example %s): "1/:" is read as the length 9, so malformed framing is accepted and acknowledged' %
+                     ([chr(b_) if 32 < b_ < 127 else b_ for b_ in (odd or [])] if odd is not None else 'any byte: no test on it precedes the sum'))
+    r9.expect_min(3)
+
     r8 = rep.rule('C07.8-queue-commit', 'R-TRANSDUCER', 'qmail-queue publishes todo/<n> only after the complete envelope F addr NUL (T addr NUL)* NUL was read (EOF, a wrong letter or an over-long address never commit), and exit 0 only through the commit')
     qs = C01.queue_sites(db, rep)
     for (rule_, inst), (ok, where, detail, path) in sorted(qs.items()):
